@@ -72,9 +72,12 @@ RefOptions(entries) ==
     response_derives  |-> RefKv(entries, "response_derives"),
     variables_derives |-> RefKv(entries, "variables_derives"),
     custom_scalars_module |-> RefKv(entries, "custom_scalars_module"),
-    deprecated |-> IF Written(entries, "deprecated") THEN ValueOf("deprecated") ELSE "warn",
-    normalization |-> IF Written(entries, "normalization") THEN ValueOf("normalization") ELSE "none",
-    fragments_other_variant |-> Written(entries, "fragments_other_variant"),   \* written value is "true"
+    \* the written value decides (in MC_C18 every key carries its representative ValueOf(k); the traces of
+    \* the repository's own derives carry whatever the tests wrote)
+    deprecated |-> IF Written(entries, "deprecated") THEN EntryFor(entries, "deprecated").value ELSE "warn",
+    normalization |-> IF Written(entries, "normalization") THEN EntryFor(entries, "normalization").value ELSE "none",
+    fragments_other_variant |-> Written(entries, "fragments_other_variant")
+                                /\ EntryFor(entries, "fragments_other_variant").value = "true",
     skip_serializing_none |-> Written(entries, "skip_serializing_none"),
-    extern_enums |-> IF Written(entries, "extern_enums") THEN ListValue ELSE <<>> ]
+    extern_enums |-> IF Written(entries, "extern_enums") THEN EntryFor(entries, "extern_enums").items ELSE <<>> ]
 =============================================================================
